@@ -218,6 +218,20 @@ func buildCorpus(e *Env, seed uint64, nMut int, long bool) (*common.Corpus, corp
 			add(fill("1 union select 1,2,3 from t -- ", n), common.FLong)
 			add(fill("x\" onmouseover=alert(1) y=\"", n), common.FLong)
 		}
+		// long TOKENS (one attribute value, string, comment, word of 300 B .. 5 kB):
+		// scratch buffers and fast paths are usually sized per token, not per input
+		word := func(n int) string { return strings.Repeat("abcdefghij", n/10+1)[:n] }
+		for _, n := range []int{300, 700, 1500, 5000} {
+			v := fill("", n)
+			add("<a href=\"http://example.com/"+v+"\">x</a>", common.FLong)
+			add("<a href=javascript:"+word(n)+">", common.FLong)
+			add("<img src="+word(n)+" onerror="+word(n/2)+">", common.FLong)
+			add("<x style=\""+v+"\" y=1>", common.FLong)
+			add("<"+word(n)+" x=1>", common.FLong)
+			add("1 or '"+v+"' = '"+v+"'", common.FLong)
+			add("1 /* "+v+" */ union select 1", common.FLong)
+			add("select "+word(n)+" from t where `"+word(n)+"` = 1", common.FLong)
+		}
 		// every second fixture / literal padded with filler: the head (first tokens,
 		// first tags) keeps deciding the verdict while the length crosses thresholds
 		padBases := append(append([]string(nil), bases...), litBases...)
